@@ -29,9 +29,13 @@ const c10Job = "    runs-on: ubuntu-latest\n    steps:\n"
 
 var c10Tree = map[string]string{
 	// ---- repository "repo"
-	"repo/.git/HEAD":                         "ref: refs/heads/main\n",
-	"repo/.github/actionlint.yaml":           "self-hosted-runner:\n  labels:\n    - foo-runner\nconfig-variables:\n  - ZZZ_VAR\n  - MMM_VAR\n  - AAA_VAR\n",
-	"repo/.github/actions/ok/action.yml":     "name: ok\ndescription: ok action\ninputs:\n  Name:\n    required: true\n  opt:\n    default: x\noutputs:\n  Out:\n    description: o\nruns:\n  using: composite\n  steps:\n    - run: echo\n      shell: bash\n",
+	"repo/.git/HEAD":                     "ref: refs/heads/main\n",
+	"repo/.github/actionlint.yaml":       "self-hosted-runner:\n  labels:\n    - foo-runner\nconfig-variables:\n  - ZZZ_VAR\n  - MMM_VAR\n  - AAA_VAR\n",
+	"repo/.github/actions/ok/action.yml": "name: ok\ndescription: ok action\ninputs:\n  Name:\n    required: true\n  opt:\n    default: x\noutputs:\n  Out:\n    description: o\nruns:\n  using: composite\n  steps:\n    - run: echo\n      shell: bash\n",
+	// a second action whose path differs from "ok" only in letter case (two actions on a
+	// case-sensitive file system), with another interface
+	"repo/.github/actions/OK/action.yml":     "name: OK\ndescription: the other action\ninputs:\n  token:\n    required: true\noutputs:\n  Res:\n    description: o\nruns:\n  using: composite\n  steps:\n    - run: echo\n      shell: bash\n",
+	"repo/.github/workflows/s1c.yml":         "on: push\njobs:\n  c:\n" + c10Job + "      - uses: ./.github/actions/OK\n        id: s\n        with:\n          token: t\n          name: n\n      - run: echo ${{ steps.s.outputs.res }} ${{ steps.s.outputs.out }}\n",
 	"repo/.github/actions/nodesc/action.yml": "name: nodesc\ninputs:\n  name:\n    required: false\nruns:\n  using: composite\n  steps:\n    - run: echo\n      shell: bash\n",
 	"repo/.github/actions/broken/action.yml": "name: [broken\n",
 	// S1: two files sharing a well-formed local action
@@ -51,7 +55,7 @@ var c10Tree = map[string]string{
 	"repo/.github/workflows/s5a.yml": "on: push\njobs:\n  a:\n" + c10Job + "      - uses: ./.github/actions/broken\n      - uses: ./.github/actions/nodesc\n  w:\n    uses: ./.github/workflows/missing.yml\n",
 	"repo/.github/workflows/s5b.yml": "on: push\njobs:\n  b:\n" + c10Job + "      - uses: ./.github/actions/nodesc\n      - uses: ./.github/actions/broken\n  w:\n    uses: ./.github/workflows/missing.yml\n",
 	// S7: files that stop early (YAML syntax error, empty document, not a mapping) next to ordinary ones
-	"repo/.github/workflows/s5c.yml":     "on: push\njobs:\n  c:\n" + c10Job + "      - uses: ./.github/actions/nodesc/\n      - uses: ./.github/../.github/actions/nodesc\n      - uses: ./.github/actions/broken/\n",
+	"repo/.github/workflows/s5c.yml":     "on: push\njobs:\n  c:\n" + c10Job + "      - uses: ./.github/actions/nodesc/\n      - uses: ./.github/../.github/actions/nodesc\n      - uses: ./.github/actions/broken/\n  w:\n    uses: ./.github/workflows/./missing.yml\n",
 	"repo/.github/workflows/s7bad.yml":   "on: push\njobs:\n  a: [unclosed\n",
 	"repo/.github/workflows/s7empty.yml": "# nothing here\n",
 	"repo/.github/workflows/s7seq.yml":   "- on: push\n",
@@ -87,7 +91,7 @@ type c10Scenario struct {
 }
 
 var c10Scenarios = []c10Scenario{
-	{Name: "S1-shared-local-action", Files: []string{"repo/.github/workflows/s1a.yml", "repo/.github/workflows/s1b.yml"}, MinFiles: 2},
+	{Name: "S1-shared-local-action", Files: []string{"repo/.github/workflows/s1a.yml", "repo/.github/workflows/s1b.yml", "repo/.github/workflows/s1c.yml"}, MinFiles: 2},
 	{Name: "S2-caller-callee", Files: []string{"repo/.github/workflows/s2caller.yml", "repo/.github/workflows/s2callee.yml", "repo/.github/workflows/s2caller2.yml"}, MinFiles: 2},
 	{Name: "S3-sibling-repositories", Files: []string{"repo/.github/workflows/s3a.yml", "repo2/.github/workflows/s3c.yml", "repo/sub/.github/workflows/s3d.yml"}, MinFiles: 2},
 	{Name: "S3b-nested-repository-git-file", Files: []string{"repo/.github/workflows/s3a.yml", "repo/wt/.github/workflows/s3e.yml", "repo/.github/workflows/s1b.yml"}, MinFiles: 2},
